@@ -15,7 +15,7 @@ RULE = ('operation lines from corpus + directed families (exhaustive shift amoun
         'each line executed on the real crate in two build profiles and on the Lean model (L1) and compared with the '
         'arithmetic specification (L0); distinct = distinct lines; non-trivial = shift/index not 0 and value not 0')
 ASSUMPTIONS = ['shift amounts and bit indices are u32; limb counts 1..=32 (fixed) and 1..=20 (boxed) are executed, the theorems cover all',
-               'crate-internal shl_limb / overflowing_shl1 / shr1 are proved about the model but reached by no hook yet (requested)']
+               'crate-internal shl_limb / overflowing_shl1 / shr1_with_carry / shr1 (+ boxed twins) are executed through crypto_bigint::verif_hooks (`c05.hook.*` lines)']
 
 
 def nontrivial(line):
@@ -103,34 +103,59 @@ def shift_lines(kind, n, s, vals, rng, forms, nforms_op):
 
 
 def hook_lines(tier, rng):
-    """crate-internal shl_limb / overflowing_shl1 / shr1_with_carry (+ boxed): only when the C05 hooks of
-    notes/C05.md are present in /repo and the harness hook ops are enabled (CB_C05_HOOKS=1)"""
-    for n in [1, 2, 3, 4, 5, 6, 8, 16]:
+    """crate-internal shl_limb / overflowing_shl1 / shr1_with_carry / shr1 (+ boxed twins), reached through
+    crypto_bigint::verif_hooks (harness ops `c05.hook.*`).  Directed: every shift 0..=63 on the carry-relevant
+    patterns (all-ones, top bit / low bit of every limb, alternating limbs), boundary shifts 0/1/31/32/33/62/63 elsewhere."""
+    quick = tier == 'quick'
+    fixed = [1, 2, 3, 4, 5, 6, 8, 16] if quick else [1, 2, 3, 4, 5, 6, 7, 8, 12, 16, 32]
+    bshifts = [0, 1, 2, 31, 32, 33, 62, 63]
+    for n in fixed:
         bits = 64 * n
         m = 1 << bits
-        vals = [0, 1, m - 1, m >> 1, (m >> 1) - 1, 1 << 63, WMAX % m] + [rng.getrandbits(bits) for _ in range(20)] + \
-            [1 << i for i in range(0, bits, 13)]
-        for v in vals:
-            v %= m
-            yield f"c05.hook.shl1 {n} {hx(v)}"
-            yield f"c05.hook.shr1 {n} {hx(v)}"
-            for s in ([0, 1, 2, 31, 32, 33, 62, 63] if v > 3 else range(64)):
-                yield f"c05.hook.shl_limb {n} {hx(v)} {s}"
-    for n in range(1, 21):
+        ones = m - 1
+        alt = sum((WMAX if i % 2 == 0 else 0) << (64 * i) for i in range(n))
+        dense = [0, 1, 2, 3, ones, m >> 1, ones ^ 1, ones >> 1, alt, ones ^ alt, WMAX % m, (WMAX << (bits - 64)) % m]
+        tops = [1 << (64 * i + 63) for i in range(n)] + [1 << (64 * i) for i in range(n)]
+        tops += [((1 << 64 * (i + 1)) - 1) for i in range(n)] + [ones ^ ((1 << 64 * i) - 1) for i in range(1, n)]
+        rnd = [rng.getrandbits(bits) for _ in range(6 if quick else 60)] + \
+              [rng.getrandbits(bits) | (m >> 1) | 1 for _ in range(3 if quick else 30)] + \
+              [value(rng, bits) % m for _ in range(6 if quick else 60)]
+        seen = set()
+        for cls, vals in (('dense', dense), ('tops', tops), ('rnd', rnd)):
+            for v in vals:
+                v %= m
+                if v in seen:
+                    continue
+                seen.add(v)
+                yield f"c05.hook.shl1 {n} {hx(v)}"
+                yield f"c05.hook.shr1 {n} {hx(v)}"
+                yield f"c05.hook.ushr1 {n} {hx(v)}"
+                if cls == 'dense' and (n <= 2 or not quick):
+                    ss = range(64)
+                elif cls == 'dense':
+                    ss = sorted(set(bshifts + list(range(0, 64, 5))))
+                elif cls == 'tops' and quick:
+                    ss = [0, 1, 63] if n > 4 else bshifts
+                else:
+                    ss = bshifts
+                for s in ss:
+                    yield f"c05.hook.shl_limb {n} {hx(v)} {s}"
+    for n in (range(1, 21) if quick else range(1, 41)):
         bits = 64 * n
         m = 1 << bits
-        for v in [0, 1, m - 1, m >> 1, rng.getrandbits(bits), rng.getrandbits(bits) | (m >> 1) | 1]:
+        ones = m - 1
+        vals = [0, 1, ones, m >> 1, ones >> 1, ones ^ 1, WMAX % m, (WMAX << (bits - 64)) % m,
+                sum(1 << (64 * i + 63) for i in range(n)), sum(1 << (64 * i) for i in range(n)),
+                rng.getrandbits(bits), rng.getrandbits(bits) | (m >> 1) | 1, value(rng, bits) % m]
+        for v in dict.fromkeys(vals):
             yield f"c05.hook.bshl1 {n} {hx(v)}"
             yield f"c05.hook.bshr1 {n} {hx(v)}"
-            for s in [0, 1, 7, 63]:
+            for s in ([0, 1, 7, 32, 63] if quick else bshifts + [7, 17]):
                 yield f"c05.hook.bshl_limb {n} {hx(v)} {s}"
 
 
 def gen(tier, rng):
     quick = tier == 'quick'
-    import os
-    if os.environ.get('CB_C05_HOOKS') == '1':
-        yield from hook_lines(tier, random.Random(rng.getrandbits(32)))
     widths = [1, 2, 3, 4, 5, 6, 8, 16] if quick else [1, 2, 3, 4, 5, 6, 7, 8, 12, 16, 32]
 
     # ---------------- Limb
@@ -292,3 +317,7 @@ def gen(tier, rng):
         yield f"c05.u.bit {n} {hx(v)} {i}"
         yield f"c05.u.set_bit {n} {hx(v)} {i} {rng.randrange(2)}"
         yield f"c05.u.bitops {n} {hx(v)}"
+
+    # ---------------- crate-internal functions through the hooks of /repo/src/verif_hooks.rs (emitted last, from
+    # their own PRNG stream, so the public families above are the same lines as before the hooks existed)
+    yield from hook_lines(tier, random.Random(rng.getrandbits(32)))
